@@ -1,4 +1,8 @@
 import PyYetiVerif.Props.C08
+import PyYetiVerif.Props.C08Init
+import PyYetiVerif.Props.C08Inst
+import PyYetiVerif.Props.C08Api
+import PyYetiVerif.Props.C08Branches
 #print axioms PyYetiVerif.C08.gen_invariant
 #print axioms PyYetiVerif.C08.visible_eq_batch
 #print axioms PyYetiVerif.C08.history_independent
@@ -9,3 +13,30 @@ import PyYetiVerif.Props.C08
 #print axioms PyYetiVerif.C08.cdf_cache_sound
 #print axioms PyYetiVerif.C08.cdf_eq_batch
 #print axioms PyYetiVerif.C08.cdf_alpha_identity
+#print axioms PyYetiVerif.C08.first_column_cases
+#print axioms PyYetiVerif.C08.gen_first_column_eq_batch
+#print axioms PyYetiVerif.C08.gen_start_eq_batch_start
+#print axioms PyYetiVerif.C08.static_ic_is_equilibrium
+#print axioms PyYetiVerif.C08.static_ic_zero_accel
+#print axioms PyYetiVerif.C08.gen_eq_tsolve_all_options
+#print axioms PyYetiVerif.C08.rf_rows_static_every_step
+#print axioms PyYetiVerif.C08.finalize_accel_eom
+#print axioms PyYetiVerif.C08.finalize_accel_eom_cdf
+#print axioms PyYetiVerif.C08.finalize_accel_rb
+#print axioms PyYetiVerif.C08.finalize_partial_history
+#print axioms PyYetiVerif.C08.unc_step_is_instance
+#print axioms PyYetiVerif.C08.exp2_step_is_instance
+#print axioms PyYetiVerif.C08.exp2Lin_addOn
+#print axioms PyYetiVerif.C08.exp2_gen_eq_batch
+#print axioms PyYetiVerif.C08.complex_step_is_instance
+#print axioms PyYetiVerif.C08.cplxLin_addOn
+#print axioms PyYetiVerif.C08.complex_gen_eq_batch
+#print axioms PyYetiVerif.C08.complex_recovery_is_real_part
+#print axioms PyYetiVerif.C08.conj_pair_sum_real
+#print axioms PyYetiVerif.C08.api_sequence_refines
+#print axioms PyYetiVerif.C08.spec_finalize_is_tsolve
+#print axioms PyYetiVerif.C08.latest_generator_wins
+#print axioms PyYetiVerif.C08.second_finalize_fails
+#print axioms PyYetiVerif.C08.resumed_generator_unaffected
+#print axioms PyYetiVerif.C08.generated_branches_ok
+#print axioms PyYetiVerif.C08.request_writes_own_column
